@@ -59,10 +59,10 @@ func multiplyUInt64(a, b uint64) UInt128Struct {
 
 // productsAreEqual returns true iff a*b == c*d (exactly) using 128-bit intermediate
 func productsAreEqual(a, b, c, d int64) bool {
-	absA := uint64(math.Abs(float64(a)))
-	absB := uint64(math.Abs(float64(b)))
-	absC := uint64(math.Abs(float64(c)))
-	absD := uint64(math.Abs(float64(d)))
+	absA := absUint64(a)
+	absB := absUint64(b)
+	absC := absUint64(c)
+	absD := absUint64(d)
 
 	mulAB := multiplyUInt64(absA, absB)
 	mulCD := multiplyUInt64(absC, absD)
@@ -72,6 +72,14 @@ func productsAreEqual(a, b, c, d int64) bool {
 
 	return mulAB.Lo64 == mulCD.Lo64 &&
 		mulAB.Hi64 == mulCD.Hi64 && signAB == signCD
+}
+
+// absUint64 returns |x| exactly (a detour through float64 drops the low bits beyond 2^53)
+func absUint64(x int64) uint64 {
+	if x < 0 {
+		return uint64(-x)
+	}
+	return uint64(x)
 }
 
 func isCollinear(pt1, sharedPt, pt2 Point64) bool {
